@@ -11,10 +11,13 @@ Models: every arm of `dispatch` (43 commands) with the cancellation bookkeeping 
 `canceled_progress_ids`, `consume_cancellation`), the thread-cache diff (`refresh_threads_with_events`) and
 the progress ids.
 
-Four of the clauses are FALSE of the unchanged code.  For each of them the full statement is a
-`def …_full : Prop`, its negation is proved on a concrete witness (`…_counterexample`, replayed on the
-real adapter by the harness: `corpus/C12/*.req`, `known_findings.txt`), and the part that does hold is
-proved for ALL histories / ALL schedules under a named hypothesis (`…_partial`).
+The five clauses about responses, sequence numbers, lifecycle and silence are proved at full strength, for ALL
+request histories / ALL schedules of the three writers.  Three of them were FALSE of the code as found (`continue`
+answered twice, sequence numbers taken before the transport lock, `initialized` sent after `terminated`); the
+defects are repaired in the repository (`known_findings.txt`: `fixed:` lines), the model mirrors the repaired code,
+and the former counterexamples stay as replays in `corpus/C12/*.req` (and as `#guard` tests below) so that a
+regression is a VIOLATION.  The thread-event clause is still FALSE of the code (relaunch after exit): its full
+statement is a `def …_full : Prop`, with `…_partial` under a named hypothesis and a `…_counterexample`.
 -/
 namespace BsVerif.Dap
 
@@ -25,10 +28,10 @@ namespace BsVerif.Dap
 def OneResp (r : Req) (out : List Msg) : Prop := ∃ ok, resps out = [Msg.resp r.cmd ok r.seq]
 
 theorem C12_one_response_step (s s' : Sess) (r : Req) (h : Hint) (out : List Msg)
-    (hc : r.cmd ≠ .continue_) (hs : runStep s r h = some (s', out)) : OneResp r out := by
+    (hs : runStep s r h = some (s', out)) : OneResp r out := by
   unfold runStep at hs
   split at hs
-  · obtain ⟨ok, hok⟩ := respondActs_fullPlan s r h hc
+  · obtain ⟨ok, hok⟩ := respondActs_fullPlan s r h
     injection hs with hs
     refine ⟨ok, ?_⟩
     have : resps (exec r s (fullPlan s r h)).2 = [Msg.resp r.cmd ok r.seq] := by rw [resps_exec, hok]; rfl
@@ -42,12 +45,8 @@ def AllAnswers (P : Req → List Msg → Prop) : List (Req × Hint) → List (Op
   | _ :: _, [] => False
   | (r, _) :: rest, a :: as => (∀ out, a = some out → P r out) ∧ AllAnswers P rest as
 
-def C12_one_response_full : Prop :=
-  ∀ hist : List (Req × Hint),
-    AllAnswers OneResp hist (runHistory {} hist)
-
-theorem C12_one_response_partial (hist : List (Req × Hint)) : ∀ s : Sess,
-    AllAnswers (fun r out => r.cmd ≠ .continue_ → OneResp r out) hist (runHistory s hist) := by
+theorem C12_one_response_from (hist : List (Req × Hint)) : ∀ s : Sess,
+    AllAnswers OneResp hist (runHistory s hist) := by
   induction hist with
   | nil => intro s; trivial
   | cons rh rest ih =>
@@ -59,38 +58,20 @@ theorem C12_one_response_partial (hist : List (Req × Hint)) : ∀ s : Sess,
     | some p =>
       obtain ⟨s', out⟩ := p
       refine ⟨?_, ih s'⟩
-      intro out' ho hc
+      intro out' ho
       cases ho
-      exact C12_one_response_step s s' r h out hc hs
+      exact C12_one_response_step s s' r h out hs
 
+/-- FULL statement: every request of every history (all commands, all argument mutations, all debuggee
+outcomes) that is answered at all gets exactly one response, carrying its `request_seq` and `command` -/
+theorem C12_one_response (hist : List (Req × Hint)) :
+    AllAnswers OneResp hist (runHistory {} hist) :=
+  C12_one_response_from hist {}
+
+/-- the former counterexample (`continue` before `launch` got a success AND an error response):
+`corpus/C12/continue-before-launch.req` -/
 def witnessContinueBeforeLaunch : List (Req × Hint) :=
   [({ seq := 1, cmd := .initialize, mutn := .valid }, {}), ({ seq := 2, cmd := .continue_, mutn := .valid }, {})]
-
-theorem C12_one_response_counterexample : ¬ C12_one_response_full := by
-  intro hfull
-  have h := hfull witnessContinueBeforeLaunch
-  simp [witnessContinueBeforeLaunch, runHistory, runStep, fullPlan, plan, exec, execAct, drain, runRule, sendAll,
-    OneResp, resps, AllAnswers] at h
-
-
-/-- `continue` itself answers exactly once when the debuggee is live and the debugger call succeeds
-(the two-response shape needs the fallible call to fail *after* the reply) -/
-theorem C12_one_response_continue_live (s s' : Sess) (r : Req) (h : Hint) (out : List Msg)
-    (hc : r.cmd = .continue_) (hd : s.dbg = .inProgress) (ho : h.outcome ≠ .none)
-    (hs : runStep s r h = some (s', out)) : OneResp r out := by
-  unfold runStep at hs
-  split at hs
-  · injection hs with hs
-    have hs2 : (exec r s (fullPlan s r h)).2 = out := congrArg Prod.snd hs
-    refine ⟨true, ?_⟩
-    rw [← hs2, resps_exec]
-    unfold fullPlan plan
-    simp only [hc, hd]
-    cases hout : h.outcome with
-    | none => exact absurd hout ho
-    | stop x => simp [respondActs, runRule]
-    | exit => simp [respondActs, runRule]
-  · cases hs
 
 /-! ### cancelled requests (`cancel {requestId}` ahead of the request, `consume_cancellation`) -/
 
@@ -141,87 +122,61 @@ theorem C12_cancelled_request_answered (s s' : Sess) (r : Req) (h : Hint) (out :
 /-! ## 2. sequence numbers are 1,2,3,… in wire order -/
 
 open Writer in
-/-- FULL statement: for every interleaving of the three writers the numbers on the wire are
-`1,2,3,…` in wire order.  FALSE of the unchanged code (the number is taken before `io.lock()`). -/
-def C12_seq_is_wire_order_full : Prop :=
-  ∀ sched : List Nat, wireSeqs sched = iota 1 (wireSeqs sched).length
-
-open Writer in
-/-- witness: the stdout forwarder (1) allocates 1, the session (0) allocates 2 and writes, then the
-forwarder writes: the wire reads `2,1` -/
-theorem C12_seq_is_wire_order_counterexample : ¬ C12_seq_is_wire_order_full := by
-  intro h
-  have := h [1, 0, 0, 1]
-  revert this
-  decide
-
-open Writer in
-/-- PARTIAL: holds for every schedule in which no writer allocates while another one holds an
-unwritten number ("single writer at a time": `serial`) -/
-theorem C12_seq_is_wire_order_partial (sched : List Nat) (hs : serial sched = true) :
+/-- FULL statement: for EVERY interleaving of the three writers (any schedule: a writer scheduled while
+another one holds the transport lock is blocked) the numbers on the wire are `1,2,3,…` in wire order.
+(As found the number was taken before `io.lock()` and the schedule `[1,0,0,1]` put `2,1` on the wire:
+`corpus/C12/forwarder-late.req` forces it through the `verif` schedule points.) -/
+theorem C12_seq_is_wire_order (sched : List Nat) :
     wireSeqs sched = iota 1 (wireSeqs sched).length := by
-  obtain ⟨k, hk⟩ := foldl_step_serial sched {} 0 ⟨fun _ => rfl, rfl, rfl⟩ hs
+  obtain ⟨k, hk, _⟩ := linv_run sched {} 0 linv_init
   unfold wireSeqs run
   rw [hk, iota_length]
 
 open Writer in
-/-- what DOES hold for EVERY interleaving of the as-found writers: the numbers on the wire are pairwise
-distinct and lie in `1 … next-1` (a permutation of a subset of what was allocated) -/
-theorem C12_seq_distinct_all_interleavings (sched : List Nat) :
-    (wireSeqs sched).Nodup ∧ ∀ n ∈ wireSeqs sched, 1 ≤ n ∧ n < (run sched).next := by
-  have h := winv_run sched {} winv_init
-  refine ⟨h.2.2.2.1, ?_⟩
-  intro n hn
-  obtain ⟨m, hm, rfl⟩ := List.mem_map.mp hn
-  exact h.1 m hm
-
-open Writer in
-/-- the REPAIRED discipline (number taken while the transport lock is held) satisfies the full
-statement for every interleaving -/
-theorem C12_seq_is_wire_order_locked (sched : List Nat) :
-    (runLocked sched).wire.map (·.seq) = iota 1 sched.length := by
-  have := foldl_stepLocked sched {} 0 rfl rfl
-  simpa [runLocked] using this
+/-- consequence: the numbers on the wire are pairwise distinct, for every interleaving -/
+theorem C12_seq_distinct_all_interleavings (sched : List Nat) : (wireSeqs sched).Nodup := by
+  rw [C12_seq_is_wire_order]
+  exact iota_nodup _ _
 
 /-! ## 3./4. lifecycle events once and in order; silence after `terminated` -/
 
 /-- for EVERY request history (and all debuggee outcomes) the session's trace is accepted by the
-combined lifecycle monitor `lifeRun false`: per debuggee lifecycle (opened by a `launch` request)
+combined STRICT lifecycle monitor `lifeRun true`: per debuggee lifecycle (opened by a `launch` request)
 `exited` at most once and immediately followed by `terminated`, `terminated` at most once, and after
-`terminated` no event except the non-queued `initialized` -/
+`terminated` no event at all -/
 theorem C12_lifecycle_monitor (hist : List (Req × Hint)) :
-    ∃ st, lifeRun false .fresh (trace {} hist) = some st :=
-  trace_life hist {} .fresh (by simp [Inv])
+    ∃ st, lifeRun true .fresh (trace {} hist) = some st :=
+  trace_life true hist {} .fresh (by simp [Inv])
 
 /-- `exited` / `terminated` at most once per lifecycle and in that order, for every history -/
 theorem C12_lifecycle_once (hist : List (Req × Hint)) :
     ∃ st, onceRun .fresh (trace {} hist) = some st := by
   obtain ⟨st, h⟩ := C12_lifecycle_monitor hist
-  exact ⟨st, once_of_life false _ _ _ h⟩
+  exact ⟨st, once_of_life true _ _ _ h⟩
 
-/-- FULL statement: no event at all from the session after `terminated` (until a new `launch`) -/
-def C12_silent_after_terminated_full : Prop :=
-  ∀ hist : List (Req × Hint), ∃ st, silentRun true false (trace {} hist) = some st
-
-/-- PARTIAL: no *queued* event after `terminated` — every event except `initialized`, which
-`handle_initialize` sends directly, bypassing `drain_events` and its latch -/
-theorem C12_silent_after_terminated_partial (hist : List (Req × Hint)) :
-    ∃ st, silentRun false false (trace {} hist) = some st := by
+/-- FULL statement: no event at all from the session after `terminated` (until a new `launch`), for
+every history — `initialized` included, which now goes through the queue and its latch -/
+theorem C12_silent_after_terminated (hist : List (Req × Hint)) :
+    ∃ st, silentRun true false (trace {} hist) = some st := by
   obtain ⟨st, h⟩ := C12_lifecycle_monitor hist
-  exact ⟨_, silent_of_life false _ _ _ h⟩
+  exact ⟨_, silent_of_life true _ _ _ h⟩
 
+open Writer in
+/-- the forwarders' share of the clause, for EVERY interleaving of the session's latch store, the lock
+acquisitions and the writes of the three writers: once the session has written a message with the latch
+set (it sets the latch before it writes `terminated`), every later message on the wire is the session's
+(responses to later requests) — no forwarder `output` follows `terminated` -/
+theorem C12_forwarders_silent_after_terminated (acts : List LAct) :
+    quietAfterLatched (lrun acts).wire = true :=
+  (qinv_run acts {} qinv_init).1
+
+/-- the former counterexample (`initialized` was sent after `terminated`):
+`corpus/C12/initialize-after-terminated.req` -/
 def witnessInitializeAfterTerminated : List (Req × Hint) :=
   [({ seq := 1, cmd := .initialize, mutn := .valid }, {}),
    ({ seq := 2, cmd := .launch, mutn := .valid }, {}),
    ({ seq := 3, cmd := .terminateThreads, mutn := .missing }, {}),
    ({ seq := 4, cmd := .initialize, mutn := .valid }, {})]
-
-theorem C12_silent_after_terminated_counterexample : ¬ C12_silent_after_terminated_full := by
-  intro h
-  obtain ⟨st, hst⟩ := h witnessInitializeAfterTerminated
-  have hn : silentRun true false (trace {} witnessInitializeAfterTerminated) = none := by decide
-  rw [hn] at hst
-  cases hst
 
 /-! ## 3b. each thread start / exit is announced by its event exactly once and in causal order -/
 
@@ -319,23 +274,35 @@ theorem C12_error_not_silence_run_rule (s : Sess) (r : Req) (h : Hint) (ha : s.a
 
 /-! ## Sanity tests (evaluated, *not* proofs) and non-vacuity -/
 
--- continue before launch: success response, `continued`, then the error response of `run`
-#guard (runHistory {} witnessContinueBeforeLaunch).map (·.map (·.length)) == [some 2, some 3]
-#guard Writer.wireSeqs [1, 0, 0, 1] == [2, 1]
-#guard Writer.wireSeqs [0, 0, 1, 1, 2, 2, 0, 0] == [1, 2, 3, 4]
-#guard Writer.serial [0, 0, 1, 1, 2, 2, 0, 0]
+-- continue before launch: one (error) response, no `continued`
+#guard (runHistory {} witnessContinueBeforeLaunch).map (·.map (·.length)) == [some 2, some 1]
 #guard accepts witnessContinueBeforeLaunch
-  [some [.resp .initialize true 1, .event .initialized],
-   some [.resp .continue_ true 2, .event (.q .continued), .resp .continue_ false 2]]
+  [some [.resp .initialize true 1, .event (.q .initialized)],
+   some [.resp .continue_ false 2]]
+-- `continue` on a live debuggee: the response and `continued` precede the stop
+#guard (runStep { dbg := .inProgress } { seq := 9, cmd := .continue_, mutn := .valid } { outcome := .stop "breakpoint" }).map (·.2)
+  == some [.resp .continue_ true 9, .event (.q .continued), .event (.q (.stopped "breakpoint"))]
+-- `initialize` after `terminated`: the response only
+#guard (runHistory {} witnessInitializeAfterTerminated).getLast? == some (some [.resp .initialize true 4])
+-- the schedule that used to put `2,1` on the wire: the session (0) is blocked while the forwarder (1) holds the lock
+#guard Writer.wireSeqs [1, 0, 0, 1] == [1]
+#guard Writer.wireSeqs [1, 0, 0, 1, 0, 0] == [1, 2]
+#guard Writer.wireSeqs [0, 0, 1, 1, 2, 2, 0, 0] == [1, 2, 3, 4]
+-- latch: a forwarder that locked before the latch was set still writes, but ahead of `terminated`; one that
+-- locks afterwards writes nothing.  Without the check (as found) the last one would follow `terminated`
+#guard (Writer.lrun [.lock 1, .setLatch, .write 1, .lock 0, .write 0, .lock 2, .write 2, .lock 0, .write 0]).wire
+  == [(1, false), (0, true), (0, true)]
+#guard !Writer.quietAfterLatched [(1, false), (0, true), (2, false)]
 
 -- tie to the source (table regenerated from session/mod.rs on every run; string-level, hence tests):
 -- every modelled command is an arm of `dispatch`, `frobnicate` is not, exactly `terminate` and
--- `disconnect` leave the `run` loop, and the number is (still) taken before the transport lock
+-- `disconnect` leave the `run` loop, and the number is taken while the transport is locked
 #guard (allCmds.filter (· != .frobnicate)).all (fun c => Gen.DapDispatch.commands.contains (cmdName c))
 #guard Gen.DapDispatch.commands.all (fun n => allCmds.any (fun c => cmdName c == n))   -- every arm of `dispatch` is modelled
 #guard !Gen.DapDispatch.commands.contains (cmdName .frobnicate)
 #guard Gen.DapDispatch.endsSession == [cmdName .terminate, cmdName .disconnect]
-#guard Gen.DapDispatch.seqBeforeLock
+#guard Gen.DapDispatch.seqUnderLock
+#guard Gen.DapDispatch.latchUnderLock
 
 -- cancel ahead: `cancel {requestId: 7}` (param 28), then request 7 = stackTrace: one error response; cancelled by progress id
 -- (param 4*2+1): the `disassemble` that takes progress id 2 closes its progress and answers with an error
@@ -358,9 +325,5 @@ example : cancellable .readMemory = true ∧ ({ cancelledReqs := [4] } : Sess).c
 
 /-- non-vacuity of `C12_error_not_silence`: a live session and a request that must fail -/
 example : ({} : Sess).alive = true ∧ mustFail {} { seq := 7, cmd := .stackTrace, mutn := .valid } = true := by decide
-
-/-- non-vacuity of `C12_one_response_continue_live` -/
-example : ({ dbg := .inProgress } : Sess).dbg = .inProgress ∧ (({ outcome := .exit } : Hint).outcome ≠ .none) := by
-  decide
 
 end BsVerif.Dap
